@@ -142,7 +142,7 @@ func loadProgram(repo, harnessDir string) (*Program, error) {
 		harnesses: map[string]*ssa.Function{}, natives: map[*ssa.Function]*Native{}, nativeImpl: nativeTable,
 		overrides: map[*ssa.Function]*ssa.Function{}, visibleFn: map[*ssa.Function]bool{},
 		fnByName: map[string]*ssa.Function{}, typeCache: map[string]types.Type{},
-		maxDepth: 200, maxLoop: 4096, maxSteps: 3000000, maxAlloc: 1 << 16, maxThreads: 64, repo: repo}
+		maxDepth: 200, maxLoop: 4096, maxSteps: 400000, maxAlloc: 1 << 16, maxThreads: 64, repo: repo}
 	p.loadTime, p.buildTime = loadT, time.Since(t1)
 	p.nBodies = nBodies
 	p.genBodies = gen
